@@ -4,6 +4,8 @@ import Casket.Model.VHostStack
 import Casket.Spec.VHostStack
 import Casket.Model.VHostAuto
 import Casket.Spec.VHostAuto
+import Casket.Model.VHostWire
+import Casket.Spec.VHostWire
 import Driver.Proto
 /-
 Streams of C01.
@@ -198,7 +200,39 @@ def autoJudge (f : List String) (out : String) : String :=
   | some (bs, _, _, r), some o => Casket.VHostAutoSpec.verdict bs r o
   | _, _ => "bad:unparsable:" ++ out
 
+/-
+  c01.wire  sites  hosthex  targethex  protoMajor
+     the request goes through http.ReadRequest: `GET <target> HTTP/1.1`, `Host: <host>`; target raw or percent-encoded
+     out   = badrequest | routed TAB <URL.Path hex> TAB (site TAB <index> TAB <path_prefix hex> | notfound TAB <status>)
+-/
+def parseWireCase : List String → Option (List Site × Bytes × Bytes × Nat)
+  | [ss, h, t, pm] => do pure (← parseSites ss, ← bytes h, ← bytes t, ← pm.toNat?)
+  | _ => none
+
+open Casket.VHostWire in
+def showWire : WireOutcome → String
+  | .badRequest => "badrequest"
+  | .routed p o => s!"routed\t{hexB p}\t{showOutcome o}"
+
+open Casket.VHostWire in
+def parseWire (s : String) : Option WireOutcome :=
+  match s.splitOn "\t" with
+  | ["badrequest"] => some .badRequest
+  | "routed" :: p :: rest => do pure (.routed (← bytes p) (← parseOutcome ("\t".intercalate rest)))
+  | _ => none
+
+def wireModel (f : List String) : String :=
+  match parseWireCase f with
+  | none => "bad-case"
+  | some (sites, h, t, pm) => showWire (Casket.VHostWire.wireRoute sites h t pm)
+
+def wireJudge (f : List String) (out : String) : String :=
+  match parseWireCase f, parseWire out with
+  | some (sites, h, _, pm), some o => Casket.VHostWireSpec.verdict sites h pm o
+  | _, _ => "bad:unparsable:" ++ out
+
 def streams : List Driver.Stream := [
+  { name := "c01.wire", model := wireModel, judge := wireJudge },
   { name := "c01.auto", model := autoModel, judge := autoJudge },
   { name := "c01.stack", model := stackModel, judge := stackJudge },
   { name := "c01.route", model := routeModel, judge := routeJudge },
